@@ -263,6 +263,35 @@ def run(ctx):
         ob = core.attempt(E.process_beads_table, W['btab'].iloc[0:0], W['itab'], base_dir=base, verbose=False, full_output=True)
         ctx.check((not ob.raised) and all(len(x) == 0 for x in ob.value), 'empty-table', ('empty', 'beads'))
         ctx.case_done(class_key=('empty',), nontrivial=False)
+    # ---- one LARGE file (more than 10^5 events) listed in several consecutive rows, healthy and faulty: every healthy row still
+    # yields what it yields alone (no reuse of the previous row's partly processed data)
+    if ctx.shard == (1 % ctx.nshards) or ctx.only_case is not None:
+        cid = ('big-file-rows', 0)
+        mon.cid = cid
+        bigf = os.path.join(base, 's_big.fcs')
+        if not os.path.exists(bigf):
+            excelgen.sample_file(np.random.default_rng([ctx.seed, 11, 99]), dict(ID='I0', fsc='FSC-H', ssc='SSC-H', fl=['FL1-H', 'FL2-H'], time='Time'),
+                                 bigf, n=120001)
+        rows = [dict(fp='s_big.fcs', u1='RFI', u2='a.u.', gf=0.5, beads=None),
+                dict(fp='s_big.fcs', u1='RFI', u2='furlongs', gf=0.5, beads=None),
+                dict(fp='s_big.fcs', u1='MEF', u2='RFI', gf=0.3, beads='Bgood'),
+                dict(fp='does_not_exist.fcs', u1='RFI', u2=None, gf=0.5, beads=None),
+                dict(fp='s_big.fcs', u1='a.u.', u2='MEF', gf=0.85, beads='Bgood')]
+        o = run_table(table(rows))
+        ctx.counters['chk:no-escape'] += 1
+        if ctx.check(not o.raised, 'exception-escapes-batch', cid, exc=core.tb_str(o.exc)[-400:] if o.raised else None):
+            for i, r in enumerate(rows):
+                g = o.value.get('R%d' % i)
+                if i in (1, 3):
+                    ctx.counters['chk:error-row'] += 1
+                    ctx.check(isinstance(g, E.ExcelUIException), 'fault-not-recorded-as-row-error:' + ('bad-units' if i == 1 else 'missing-file'), cid, row=i)
+                else:
+                    ctx.counters['chk:isolation'] += 1
+                    ref = single_ref(r)
+                    ctx.check(ref is not None and not isinstance(g, Exception) and fp(g, ident=False) == ref,
+                              'healthy-row-differs-from-single-row-run', cid, row=i, big_file=True,
+                              error=str(g) if isinstance(g, Exception) else None)
+        ctx.case_done(class_key=('big-file-rows',), nontrivial=True, distinct_key=core.digest(cid))
     # ---- histories on the file system: a row's file disappears, appears or is replaced between two batches of one process
     if ctx.shard == 0 or ctx.only_case is not None:
         import shutil as _sh
